@@ -58,6 +58,15 @@ Definition dispatch (kind : string) (args : list string) : string :=
         end
     | None => BADARGS
     end
+  else if String.eqb kind "src" then
+    (* a constant of the Go source by identifier: the value the model hard-codes *)
+    match args with
+    | [name] => match src_const name with
+                | Some v => out3 (dec_of_N v) "-" "-"
+                | None => out3 "unknown-to-the-model" "-" "-"
+                end
+    | _ => BADARGS
+    end
   else BADARGS.
 
 Definition dispatch_line (l : string) : string :=
